@@ -63,9 +63,15 @@
    (c) Memory private to one call (the Parser and Lexer objects created by parser.Parse/New, the
        strings.Builder created by Explain, locals): not shared by construction; the inventory check
        (a) guarantees no package-level variable holds such an object.
+       Function literals in package-level initialisers of those files are analysed as functions
+       of their own; an import, by those files, of a module package other than ast, token and
+       internal/explain (code that would run on the tree without being analysed) is listed in
+       inv_goroutines_and_unsafe.
    The restore pattern (s_restored) is recognised only in the exact shape
          saved (:)= LOC ; LOC = v ; defer func() { LOC = saved }()
-   as three consecutive statements of one block with LOC textually identical; s_restore_fresh
+   as three consecutive statements of one block with LOC textually identical, and only if `saved`
+   is a local that is assigned nowhere else in the function (other than by the saving statement of
+   another instance of the pattern) and whose address is never taken; s_restore_fresh
    says whether `saved` is declared by that `:=`.  When it is not (explainExplainQuery reuses
    `format` / `savedSettings` declared at function level), the claim that `saved` still holds the
    original value when the deferred closure runs is part of the trusted base and is checked
